@@ -76,3 +76,114 @@ Definition strictly_inside_b (x : input) : bool :=
 
 Definition spec_b (x : input) (v : verdict) : bool :=
   sound_b x v && (negb (strictly_inside_b x) || match v with Reject => false | Accept _ => true end).
+
+(* ====================================================================================================
+   The property over the whole message (Model.message: any delivery, Conditions or none, any number of bearer
+   confirmations and AuthnStatements).  Written from the property text:
+     - no identity when now is later than a SessionNotOnOrAfter (of ANY AuthnStatement) plus skew, outside the
+       Conditions window (when there are Conditions), or when no bearer confirmation has a window that holds now
+       (plus skew) with ordered bounds (saml-core/profiles: ONE confirmation that holds confirms the subject);
+       nor when the Response IssueInstant is more than a day plus skew away — whatever the delivery;
+     - the expiry reported is a SessionNotOnOrAfter when one is present, otherwise the Conditions NotOnOrAfter;
+     - strictly inside all windows it is accepted.  Interpretations for the completeness half: the delivery is
+       one the SP can unpack (POST, Redirect, SOAP), the Response is not addressed to somebody else, there is
+       exactly one AuthnStatement (saml2int; the implementation refuses any other number), and every bearer
+       confirmation has data (with NotOnOrAfter when it has NotBefore) and is strictly inside. *)
+Definition xskew (x : xinput) : Z := match xatd x with Some z => z | None => 0 end.
+
+Definition lower_ok (n k : Z) (o : option stamp) : Prop := match o with Some a => sec a - k <= n | None => True end.
+Definition upper_ok (n k : Z) (o : option stamp) : Prop := match o with Some b => n <= sec b + k | None => True end.
+Definition w_inside (n k : Z) (w : window) : Prop :=
+  lower_ok n k (fst w) /\ upper_ok n k (snd w) /\ ordered (fst w) (snd w).
+
+Definition lower_strict (n k : Z) (o : option stamp) : Prop := match o with Some a => sec a - k < n | None => True end.
+Definition upper_strict (n k : Z) (o : option stamp) : Prop := match o with Some b => n < sec b + k | None => True end.
+Definition w_strict (n k : Z) (w : window) : Prop :=
+  lower_strict n k (fst w) /\ upper_strict n k (snd w) /\ ordered (fst w) (snd w).
+
+Definition present {A} (l : list (option A)) : list A :=
+  flat_map (fun o => match o with Some a => [a] | None => [] end) l.
+
+(* the expiry the application is told *)
+Definition xexpiry_ok (m : message) (reported : Z) : Prop :=
+  match present (m_statements m) with
+  | _ :: _ => In reported (map sec (present (m_statements m)))
+  | [] => match m_conditions m with
+          | Some (_, Some c) => reported = sec c
+          | _ => True
+          end
+  end.
+
+Definition xsound (x : xinput) (v : verdict) : Prop :=
+  match v with
+  | Reject => True
+  | Accept reported =>
+      let m := xm x in
+      (forall s, In s (m_statements m) -> upper_ok (xnow x) (xskew x) s)
+      /\ (forall w, m_conditions m = Some w -> w_inside (xnow x) (xskew x) w)
+      /\ (exists w, In (Some w) (m_confirmations m) /\ w_inside (xnow x) (xskew x) w)
+      /\ Z.abs (sec (m_issue m) - xnow x) <= 86400 + xskew x
+      /\ xexpiry_ok m reported
+  end.
+
+Definition xstrictly_inside (x : xinput) : Prop :=
+  let m := xm x in
+  0 <= xskew x
+  /\ unravels (m_binding m) = true /\ m_destination m <> Some false
+  /\ (exists s, m_statements m = [s] /\ upper_strict (xnow x) (xskew x) s)
+  /\ (forall w, m_conditions m = Some w -> w_strict (xnow x) (xskew x) w)
+  /\ m_confirmations m <> []
+  /\ (forall d, In d (m_confirmations m) ->
+        exists w, d = Some w /\ w_strict (xnow x) (xskew x) w /\ (fst w <> None -> snd w <> None))
+  /\ Z.abs (sec (m_issue m) - xnow x) < 86400 + xskew x.
+
+Definition xspec (x : xinput) (v : verdict) : Prop :=
+  xsound x v /\ (xstrictly_inside x -> v <> Reject).
+
+(* boolean versions *)
+Definition lower_ok_b (n k : Z) (o : option stamp) : bool := match o with Some a => sec a - k <=? n | None => true end.
+Definition upper_ok_b (n k : Z) (o : option stamp) : bool := match o with Some b => n <=? sec b + k | None => true end.
+Definition w_inside_b (n k : Z) (w : window) : bool :=
+  lower_ok_b n k (fst w) && upper_ok_b n k (snd w) && ordered_b (fst w) (snd w).
+Definition lower_strict_b (n k : Z) (o : option stamp) : bool := match o with Some a => sec a - k <? n | None => true end.
+Definition upper_strict_b (n k : Z) (o : option stamp) : bool := match o with Some b => n <? sec b + k | None => true end.
+Definition w_strict_b (n k : Z) (w : window) : bool :=
+  lower_strict_b n k (fst w) && upper_strict_b n k (snd w) && ordered_b (fst w) (snd w).
+
+Definition xexpiry_ok_b (m : message) (reported : Z) : bool :=
+  match present (m_statements m) with
+  | _ :: _ => existsb (fun e => reported =? e) (map sec (present (m_statements m)))
+  | [] => match m_conditions m with
+          | Some (_, Some c) => reported =? sec c
+          | _ => true
+          end
+  end.
+
+Definition xsound_b (x : xinput) (v : verdict) : bool :=
+  match v with
+  | Reject => true
+  | Accept reported =>
+      let m := xm x in
+      forallb (upper_ok_b (xnow x) (xskew x)) (m_statements m)
+      && match m_conditions m with Some w => w_inside_b (xnow x) (xskew x) w | None => true end
+      && existsb (fun d => match d with Some w => w_inside_b (xnow x) (xskew x) w | None => false end)
+                 (m_confirmations m)
+      && (Z.abs (sec (m_issue m) - xnow x) <=? 86400 + xskew x)
+      && xexpiry_ok_b m reported
+  end.
+
+Definition xstrictly_inside_b (x : xinput) : bool :=
+  let m := xm x in
+  (0 <=? xskew x)
+  && unravels (m_binding m) && match m_destination m with Some false => false | _ => true end
+  && match m_statements m with [s] => upper_strict_b (xnow x) (xskew x) s | _ => false end
+  && match m_conditions m with Some w => w_strict_b (xnow x) (xskew x) w | None => true end
+  && match m_confirmations m with [] => false | _ => true end
+  && forallb (fun d => match d with
+                       | Some w => w_strict_b (xnow x) (xskew x) w && (negb (opt_some_b (fst w)) || opt_some_b (snd w))
+                       | None => false
+                       end) (m_confirmations m)
+  && (Z.abs (sec (m_issue m) - xnow x) <? 86400 + xskew x).
+
+Definition xspec_b (x : xinput) (v : verdict) : bool :=
+  xsound_b x v && (negb (xstrictly_inside_b x) || match v with Reject => false | Accept _ => true end).
